@@ -61,7 +61,11 @@ class Disp:
     async def __aexit__(self, et, ev, tb):
         self.log.append(("exit-start", self.i, et, ev))
         if self.exit_.startswith("slow"):
-            await asyncio.sleep(1.0)
+            try:
+                await asyncio.sleep(1.0)
+            except asyncio.CancelledError:
+                self.log.append(("exit-interrupted", self.i))
+                raise
         if self.exit_.endswith("fail"):
             raise DispError(("exit", self.i))
         self.log.append(("exited", self.i))
@@ -166,7 +170,8 @@ def scenarios(level=1):
     exits = ["ok", "fail", "slow-ok", "slow-fail"]
     dsets = [[]] + [[(e, x)] for e in enters for x in exits] + \
         [[("state", "ok"), ("fail", "ok")], [("slow-state", "ok"), ("fail", "ok")], [("state", "fail"), ("none", "fail")],
-         [("state", "slow-ok"), ("none", "fail")], [("states", "ok"), ("state", "ok")], [("state", "ok"), ("slow-fail", "ok")]]
+         [("state", "slow-ok"), ("none", "fail")], [("states", "ok"), ("state", "ok")], [("state", "ok"), ("slow-fail", "ok")],
+         [("none", "fail"), ("state", "slow-fail")], [("none", "slow-fail"), ("none", "fail"), ("none", "slow-ok")]]
     for ds in dsets:
         for body in ("return", "raise", "base", "sleep"):
             for spawned in ([], ["done"], ["block"], ["fail", "block"]):
